@@ -33,6 +33,8 @@ pub struct SoloCfg {
     /// blocks of rounds 1-2 also exist in a variant whose payload batch is NOT in the store;
     /// the batch arrives as a separate event (payload-resumed processing path)
     pub with_payload: bool,
+    /// sync requests from another member for every block of the universe
+    pub with_sync_requests: bool,
 }
 
 pub struct Uni2 {
@@ -152,6 +154,11 @@ pub fn menu(s: &Search, sc: &SoloCfg, u: &Uni2, stale_blocks: &[Block]) -> Vec<E
             for c in claims {
                 push(ConsensusMessage::TC(w.tc(r, &others.iter().map(|o| (*o, c)).collect::<Vec<_>>())), &mut evs);
             }
+        }
+    }
+    if sc.with_sync_requests {
+        for b in u.blocks.values() {
+            push(ConsensusMessage::SyncRequest(b.digest(), w.name(others[0])), &mut evs);
         }
     }
     if sc.with_invalid {
@@ -332,5 +339,6 @@ pub fn default_cfg(node: usize, r: Round, tier: Tier) -> SoloCfg {
         with_tcs: true,
         with_invalid: true,
         with_payload: false,
+        with_sync_requests: false,
     }
 }
